@@ -7,6 +7,13 @@ wt = "/tmp/seed-%s%s" % (pid.lower(), suf)
 p = [json.loads(l) for l in open("/verif/properties.jsonl") if json.loads(l)["id"] == pid][0]
 subprocess.check_call(["git", "-C", "/repo", "worktree", "add", "-q", wt, "HEAD"])
 pkgs = sorted({os.path.dirname(f) if f.endswith(".go") else f for f in p["anchors"]["files"]})
+round2 = """This is a SECOND round: obvious single-site mutations of the central function (inverted comparison, dropped
+guard, off-by-one in the main loop) have already been tried. Prefer: (i) a change in a helper, caller or sibling package
+that the anchored code relies on (the glue: parsing, copying, hashing, option handling, constructors, cleanup paths);
+(ii) breakage that only shows under a particular option / configuration / session-kind combination; (iii) state carried
+across operations (caches, counters, reference counts, reconnects, re-registration, replaced policies); (iv) boundary
+values of sizes, lengths, counts and identifiers; (v) two cooperating sites that each look fine alone.
+""" if suf else ""
 prompt = f"""You are testing how well a Go project's verification catches regressions. Work ONLY inside the git
 worktree {wt} (a checkout of bio-routing/bio-rd, a BGP / IS-IS / BMP routing daemon in Go). Do not look at or
 touch /verif or /repo. Per shell call first run:
@@ -26,7 +33,7 @@ optimisation or a bug fix gone wrong), each of which BREAKS this property while
  (c) the breakage needs something specific to manifest — a particular interleaving, a fault at a particular point, a
      multi-step sequence of operations, an unusual input / boundary value, or two cooperating sites that each look fine
      alone — NOT something ordinary use would expose at once.
-Do not change any test file or verif_hooks file. NEVER use `git stash` (the stash is shared with other worktrees of this repository and other people use them concurrently): use `git diff > file`, `git checkout -- <file>`, `git apply file` instead. Each change should be small (a few lines) and plausible. The two
+{round2}Do not change any test file or verif_hooks file. NEVER use `git stash` (the stash is shared with other worktrees of this repository and other people use them concurrently): use `git diff > file`, `git checkout -- <file>`, `git apply file` instead. Each change should be small (a few lines) and plausible. The two
 changes should break the property in different ways (different clause, different code site).
 
 For each change deliver in {wt}/out/<n>/ (n = 1, 2):
